@@ -11,6 +11,10 @@ use self::vm_layout::vm_layout;
 mod map32;
 #[cfg(target_pointer_width = "64")]
 mod map64;
+#[cfg(mmtk_verif)]
+pub use self::map32::Map32;
+#[cfg(all(mmtk_verif, target_pointer_width = "64"))]
+pub use self::map64::Map64;
 
 #[cfg(target_pointer_width = "32")]
 pub fn create_vm_map() -> Box<dyn VMMap + Send + Sync> {
